@@ -62,8 +62,35 @@ def cases(tier):
     yield {"k": "angle"}
     yield {"k": "blk"}
     yield {"k": "parity"}
+    for first in range(len(PLACE_STMTS)):
+        yield {"k": "placement", "first": first}
     for m in range(1, 65):
         yield {"k": "align", "m": m}
+
+
+# address-sensitive directives where the true address is the sum of several things: the link base (even or odd, set first or last),
+# the offset of an '.include' in its parent, the offset inside the included file, the iteration of a '.repeat'
+PLACE_STMTS = [(".byte 21", "byte", 0o21), (".even", "even", None), (".odd", "odd", None), (".align 4", "align", 4), (".word 401", "word", 0o401), (".byte 22", "byte", 0o22)]
+
+
+def place_reference(addr, body):
+    """bytes of the body statements starting at address addr, or None when word data lands on an odd address"""
+    out = bytearray()
+    for _t, kind, arg in body:
+        a = addr + len(out)
+        if kind == "byte":
+            out.append(arg)
+        elif kind == "even":
+            out += b"\x00" * (a % 2)
+        elif kind == "odd":
+            out += b"\x00" * ((a + 1) % 2)
+        elif kind == "align":
+            out += b"\x00" * ((-a) % arg)
+        else:
+            if a % 2:
+                return None
+            out += bytes([arg & 255, arg >> 8])
+    return bytes(out)
 
 
 def ref_encode(s, cs):
@@ -313,6 +340,65 @@ def check(case, r, tier):
         # parity seen through a not-yet-known size
         good.append((("even", "after-deferred-size"), ".blkb pn1\n.even\n.word 7\npn1 = 3", b"\x00\x00\x00\x00\x07\x00"))
         good.append((("odd", "after-deferred-size"), ".blkb pn2\n.odd\n.byte 7\npn2 = 2", b"\x00\x00\x00\x07"))
+    elif k == "placement":
+        bodies = []
+        for n in (0, 1, 2):
+            for rest in itertools.product(range(len(PLACE_STMTS)), repeat=n):
+                bodies.append([PLACE_STMTS[case["first"]]] + [PLACE_STMTS[i] for i in rest])
+        for body in bodies:
+            btext = "".join(t + "\n" for t, _k, _a in body)
+            for base in (0o1000, 0o1001):
+                for link in ("first", "last"):
+                    pre = ".link %o\n" % base if link == "first" else ""
+                    post = ".link %o\n" % base if link == "last" else ""
+                    progs = []
+                    # (a) in the main file, after 0 or 1 bytes
+                    for lead in (0, 1):
+                        leadt = ".byte 1\n" * lead
+                        want = place_reference(base + lead, body)
+                        progs.append(("main+%d" % lead, [("p.mac", pre + leadt + btext + post)], None, None if want is None else b"\x01" * lead + want))
+                        # (b) in an included file, itself after 0 or 1 bytes of its own
+                        for own in (0, 1):
+                            want = place_reference(base + lead + own, body)
+                            progs.append(("included+%d+%d" % (lead, own), [("p.mac", pre + leadt + ".include \"inc.mac\"\n" + post)], {"inc.mac": ".byte 2\n" * own + btext},
+                                          None if want is None else b"\x01" * lead + b"\x02" * own + want))
+                    # (c) three times in a '.repeat', count literal or defined later
+                    img, ok = bytearray(), True
+                    for _ in range(3):
+                        part = place_reference(base + len(img), body)
+                        if part is None:
+                            ok = False
+                            break
+                        img += part
+                    for cnt, tail in (("3", ""), ("rn", "rn = 3\n")):
+                        progs.append(("repeat-" + cnt, [("p.mac", pre + ".repeat %s {\n%s}\n" % (cnt, btext) + tail + post)], None, bytes(img) if ok else None))
+                    for tag, files, tree, want in progs:
+                        out = driver.assemble(files, tree=tree)
+                        key = ("placement", tag, base, link, btext)
+                        if want is None:
+                            good = out.status == "fail"
+                        else:
+                            good = out.status == "ok" and out.base == base and out.code == want
+                        r.ran("ok" if good and want is not None else out.cls(), key=key)
+                        if not good:
+                            if want is None:
+                                sig = "accepted:word-at-odd-address:" + tag.split("+")[0] if out.status == "ok" else out.cls()
+                                what = "word data lands on an odd address and must be refused"
+                            else:
+                                sig, what = batch.classify_mismatch(out, want)
+                                sig += ":placement:" + tag.split("+")[0]
+                            r.violation(sig, what + " (%s, base %o, .link %s)" % (tag, base, link),
+                                        {"kind": "files", "files": [list(f) for f in files], "tree": tree, "expected_hex": None if want is None else want.hex(), "base": base},
+                                        "error" if want is None else want.hex(), out.brief())
+        return
+    elif k == "files":
+        want = None if case["expected_hex"] is None else bytes.fromhex(case["expected_hex"])
+        out = driver.assemble([tuple(f) for f in case["files"]], tree=case.get("tree"))
+        good = out.status == "fail" if want is None else (out.status == "ok" and out.code == want and out.base == case["base"])
+        r.ran(out.cls(), key=None)
+        if not good:
+            r.violation("replay", "recorded program", case, case["expected_hex"], out.brief())
+        return
     elif k == "align":
         m = case["m"]
         for base in (0o1000, 0o1003):
